@@ -1567,6 +1567,28 @@ impl<'a> Ev<'a> {
             ("len", Val::Array(vs)) => Val::Int(vs.len() as i128),
             ("len", Val::List(vs)) if !vs.iter().any(|x| matches!(x, Val::Rep { .. })) => Val::Int(vs.len() as i128),
             ("is_empty", Val::Array(vs)) => Val::Bool(vs.is_empty()),
+            ("rev", Val::Array(vs)) => Val::Array(vs.iter().rev().cloned().collect()),
+            ("any" | "all", Val::Array(vs)) if matches!(args.first(), Some(Val::Closure(_))) => {
+                // short-circuit fold, path-sensitively
+                let Some(Val::Closure(cv)) = args.first() else { unreachable!() };
+                let is_any = name == "any";
+                let mut pending: Vec<St> = vec![st];
+                let mut done: Outs = Vec::new();
+                for el in vs {
+                    let mut next = Vec::new();
+                    for s in pending {
+                        for (s2, fl) in self.call_closure(s, cv, vec![el.clone()]) {
+                            let Flow::Val(v) = fl else { done.push((s2, fl)); continue };
+                            for (s3, b) in self.truth(s2, &v, sp) {
+                                if b == is_any { done.push((s3, Flow::Val(Val::Bool(is_any)))); } else { next.push(s3); }
+                            }
+                        }
+                    }
+                    pending = next;
+                }
+                for s in pending { done.push((s, Flow::Val(Val::Bool(!is_any)))); }
+                return done;
+            }
             ("collect", Val::Array(vs)) => Val::List(vs.clone()),
             ("collect", Val::Rep { .. }) => Val::List(vec![rv.clone()]),
             ("collect" | "into_iter" | "iter", Val::List(_)) => rv.clone(),
